@@ -36,14 +36,22 @@ RULE = ('cases = (a) chi² vector over {1, 2, 3.5, +inf, NaN} of length 0..5 (or
         'canonical hash of the generated inputs')
 REQUIRED_BRANCHES = ['direct', 'tie', 'inf', 'nan', 'already_ranked', 'reordered', 'no_fluxes', 'with_fluxes',
                      'e2e', 'e2e_tie', 'e2e_1e30', 'e2e_clamped', 'e2e_reordered',
-                     'e2e3d', 'e2e3d_tie', 'e2e3d_remove_resolved', 'e2e3d_reordered',
+                     'e2e3d', 'e2e3d_tie', 'e2e3d_mask_changed_best', 'e2e3d_reordered', 'e2e3d_predicted_independent',
                      'e2e_cube', 'e2e_cube_long_names', 'e2e_cube_shared_prefix', 'e2e_cube_reordered']
 ASSUMPTIONS = ['order inside a group of equal chi² is not compared (numpy.argsort default kind is not stable)',
                'end-to-end: chi² values closer than 1e-9 (relative) are treated as one tie group; IEEE rounding is not '
                'modelled (tolerance 1e-9 x condition number); rows whose clamp/limit decision margin is below 1e-7 are skipped',
-               'distance-dependent mode: row integrity and ranking (incl. chi² = inf of resolved models) are checked against '
-               'the real fitter run on one-model packages (the row a model gets must not depend on its neighbours); the '
-               'content of the predicted fluxes in that mode (interpolation, d^-2) belongs to the C02 check']
+               'distance-dependent mode: rows are compared (a) with the real fitter run on one-model packages (a row must not '
+               'depend on the model\'s neighbours) and (b) with an expectation computed by the harness itself from the package '
+               'arrays: predicted_j = log10(interp(aperture table_j, theta_j * d_best[pc]) * (1 kpc / d_best)^2) + av * k_j with '
+               'd_best = 10**sc and (av, sc) read from the row, tolerance 1e-9; which distance is best and the value of av are C02\'s',
+               'chi² = +inf for a WHOLE model cannot be produced through Fitter.fit on the unchanged code: with remove_resolved the '
+               'radius from find_radius_sigma never exceeds the largest aperture_au (= theta * d_max) and the test is a strict <, so '
+               'the farthest trial distance is never masked and argmin always finds a finite chi²; dmin == dmax gives radius == '
+               'aperture, again not <.  The outcome branch that IS reachable and required is e2e3d_mask_changed_best (the mask moves a '
+               'model\'s reported distance, seen by fitting the same package with remove_resolved=False); e2e3d_inf is recorded if it '
+               'ever occurs (then the row must rank last among non-NaN rows and be consistent), but is not required.  True +inf / NaN '
+               'chi² rows are exercised through directly built FitInfo objects']
 EXHAUSTIVE = {'quick': False, 'thorough': True}
 N_E2E = {'quick': 45, 'thorough': 900}
 N_E2E3D = {'quick': 14, 'thorough': 250}
@@ -66,6 +74,8 @@ def direct_case(chi2, with_fluxes):
 def gen_e2e(rng, directed=None):
     case = c01.gen_case(rng, directed if directed in ('clamp_low', 'clamp_high', 'interior') else None)
     case['kind'] = 'e2e'
+    if case.get('pkg') == 'cube_memmap':
+        case['pkg'] = 'cube'          # float32 storage (use_memmap) is C01's business; C04 compares at float64 tolerance
     models = case['models']
     nb = len(case['wavs'])
     # duplicated models: exact ties
@@ -101,6 +111,8 @@ def gen_cases(seed, tier):
         yield gen_e2e(case_rng(seed, PID, 'directed-%d' % i), d)
     yield gen_cube(case_rng(seed, PID, 'directed-cube-0'), directed=True)
     yield gen_cube(case_rng(seed, PID, 'directed-cube-1'), directed=True)
+    for i in range(3):
+        yield gen_e2e3d_masked(case_rng(seed, PID, 'directed-3d-masked-%d' % i))
     yield gen_e2e3d(case_rng(seed, PID, 'directed-3d-0'), resolved=True, dup=True)
     yield gen_e2e3d(case_rng(seed, PID, 'directed-3d-1'), resolved=True, dup=True)
     if tier == 'thorough':
@@ -146,7 +158,7 @@ def cube_names(rng, nm, long_names=True):
 
 def gen_cube(rng, directed=False):
     case = gen_e2e(rng, 'dup' if directed else None)
-    case['pkg'] = 'cube'
+    case['c04pkg'] = 'named_cube'
     nm = len(case['models'])
     names = cube_names(rng, nm)
     if directed:
@@ -220,6 +232,40 @@ def gen_e2e3d(rng, resolved=None, dup=None):
     return dict(kind='e2e3d', wavs=wavs, aps=aps, models=models, tab_w=tw, tab_chi=chi,
                 av=[0., float('%.2g' % rng.uniform(1., 40.))], dist=[dlo, dhi], logd_step=rng.choice([0.02, 0.05, 0.2]),
                 ap_arcsec=ap_arcsec, remove_resolved=resolved, sources=sources)
+
+
+def gen_e2e3d_masked(rng):
+    """extended models (surface brightness not falling outwards) seen through small apertures at a source that
+    matches them at the NEAREST trial distance: without the mask the best distance is near dmin, with
+    remove_resolved every trial distance but the farthest is masked, so the reported distance must move"""
+    nb = rng.randint(2, 3)
+    aps = [100., 300., 900., 2700., 8100.]
+    wavs = sorted({common.nice(rng, 0.5, 100., 3) for _ in range(nb + 2)})[:nb]
+    nb = len(wavs)
+    dlo, dhi = 0.5, 2.0
+    models = []
+    for m in range(rng.randint(2, 3)):
+        base = [common.nice(rng, 0.1, 10., 3) for _ in range(nb)]
+        grow = rng.uniform(10., 14.)
+        models.append([[float('%.4g' % (base[j] * grow ** a)) for j in range(nb)] for a in range(len(aps))])
+    # one compact model for contrast
+    base = [common.nice(rng, 1., 100., 3) for _ in range(nb)]
+    models.insert(rng.randint(0, len(models)), [[float('%.4g' % (base[j] * 1.02 ** a)) for j in range(nb)] for a in range(len(aps))])
+    tw = sorted({0.1, 300.} | {common.nice(rng, 0.1, 300., 3) for _ in range(4)})
+    chi = [common.nice(rng, 1., 1e4, 3) for _ in tw]
+    ap_arcsec = [float('%.3g' % rng.uniform(0.3, 3.5)) for _ in range(nb)]
+    sources = []
+    for m in range(len(models)):
+        flux, err = [], []
+        for j in range(nb):
+            a_au = ap_arcsec[j] * dlo * 1000.
+            f = float(np.interp(a_au, aps, [models[m][a][j] for a in range(len(aps))])) / dlo ** 2
+            f = float('%.4g' % f)
+            flux.append(f)
+            err.append(float('%.3g' % (0.05 * f)))
+        sources.append(dict(flags=[1] * nb, flux=flux, err=err))
+    return dict(kind='e2e3d', wavs=wavs, aps=aps, models=models, tab_w=tw, tab_chi=chi, av=[0., 5.], dist=[dlo, dhi],
+                logd_step=0.05, ap_arcsec=ap_arcsec, remove_resolved=True, sources=sources)
 
 
 def long_direct(rng):
@@ -321,7 +367,7 @@ def run_e2e(case):
     relaxed = 0
     key = common.canon_hash(case)
     try:
-        if case.get('pkg') == 'cube':
+        if case.get('c04pkg') == 'named_cube':
             fitter, names = build_cube(case, d)
             br.add('e2e_cube')
             if any(len(n) > 30 for n in names):
@@ -356,7 +402,7 @@ def run_e2e(case):
                                   violates=True, branches=br, key=key)
             if got['model_id'] != sorted(got['model_id']):
                 br.add('e2e_reordered')
-                if case.get('pkg') == 'cube':
+                if case.get('c04pkg') == 'named_cube':
                     br.add('e2e_cube_reordered')
             skip_order = False
             for i, m in enumerate(got['model_id']):
@@ -414,7 +460,7 @@ def run_e2e(case):
         shutil.rmtree(d, ignore_errors=True)
 
 
-def build3d(case, d, which):
+def build3d(case, d, which, remove_resolved=None):
     """package holding the models `which` (indices) of the case"""
     names = ['m%03d' % i for i in which]
     pk.write_conf(d, aperture_dependent=True, logd_step=case['logd_step'])
@@ -426,15 +472,29 @@ def build3d(case, d, which):
         pk.write_convolved(d, fn, w, names, flux, np.zeros((len(which), len(case['aps']))), apertures_au=case['aps'])
     ext = pk.make_extinction(case['tab_w'], case['tab_chi'])
     fitter = pk.make_fitter(d, fnames, case['ap_arcsec'], ext, case['av'], distance_range_kpc=case['dist'],
-                            remove_resolved=case['remove_resolved'])
+                            remove_resolved=case['remove_resolved'] if remove_resolved is None else remove_resolved)
     return fitter, names
+
+
+def expected_predicted3(case, m, av, sc):
+    """the harness's own expectation of the stored row of model m, from the arrays it wrote into the package:
+    log10(flux interpolated to the aperture theta_j * d [AU = arcsec * pc], times (1 kpc / d)^2) + av * k_j, d = 10**sc"""
+    d_kpc = 10. ** sc
+    tw = np.array(case['tab_w'], dtype=float)
+    tc = np.array(case['tab_chi'], dtype=float)
+    aps = np.array(case['aps'], dtype=float)
+    out = []
+    for j, w in enumerate(case['wavs']):
+        k = -0.4 * np.interp(w, tw, tc, left=0., right=0.) / np.interp(0.55, tw, tc)
+        a_au = min(case['ap_arcsec'][j] * d_kpc * 1000., aps[-1])          # beyond the table: clamped to the last aperture
+        f = np.interp(a_au, aps, [case['models'][m][a][j] for a in range(len(aps))]) / d_kpc ** 2
+        out.append(math.log10(f) + av * k)
+    return out
 
 
 def run_e2e3d(case):
     root = tempfile.mkdtemp(prefix='c04_3d_')
     br = {'e2e3d'}
-    if case['remove_resolved']:
-        br.add('e2e3d_remove_resolved')     # resolved models get chi² = inf at the distances where they are resolved
     key = common.canon_hash(case)
     nm = len(case['models'])
     try:
@@ -448,6 +508,11 @@ def run_e2e3d(case):
                 dm = os.path.join(root, 'one%d' % m)
                 os.makedirs(dm)
                 singles.append(build3d(case, dm, [m])[0])
+            nomask = None
+            if case['remove_resolved']:
+                dn = os.path.join(root, 'nomask')
+                os.makedirs(dn)
+                nomask = build3d(case, dn, list(range(nm)), remove_resolved=False)[0]
         for si, src in enumerate(case['sources']):
             s = pk.make_source('s%d' % si, src['flags'], src['flux'], src['err'])
             try:
@@ -469,6 +534,31 @@ def run_e2e3d(case):
             ochi = [float(o['chi2'][0]) for o in own]
             if any(c == ef.INF for c in ochi):
                 br.add('e2e3d_inf')
+            # outcome of the mask: the same package fitted without it
+            if nomask is not None:
+                with common.quiet():
+                    free = pk.fit_arrays(nomask.fit(s))
+                for i, m in enumerate(got['model_id']):
+                    i0 = free['model_id'].index(m)
+                    if float(got['sc'][i]) != float(free['sc'][i0]):
+                        br.add('e2e3d_mask_changed_best')
+                    if float(got['chi2'][i]) < float(free['chi2'][i0]) * (1 - 1e-12):
+                        return CaseResult(False, detail=(
+                            'source %d model %s: chi2 with remove_resolved (%r) is below the minimum over ALL trial distances (%r)'
+                            % (si, names[m], float(got['chi2'][i]), float(free['chi2'][i0]))), violates=True, branches=br, key=key)
+            # the stored fluxes against the harness's own expectation from the package arrays
+            for i, m in enumerate(got['model_id']):
+                if not (math.isfinite(float(got['sc'][i])) and math.isfinite(float(got['av'][i]))):
+                    continue
+                want = expected_predicted3(case, m, float(got['av'][i]), float(got['sc'][i]))
+                have = [float(x) for x in got['model_fluxes'][i]]
+                br.add('e2e3d_predicted_independent')
+                if len(have) != len(want) or not all(common.close(a, b, 1e-9) for a, b in zip(have, want)):
+                    return CaseResult(False, detail=(
+                        'source %d row %d (model %s, av=%r, sc=%r i.e. d=%r kpc): stored predicted log fluxes %r; the model\'s fluxes '
+                        'interpolated to the apertures theta*d, scaled by d^-2, plus av*k give %r'
+                        % (si, i, names[m], float(got['av'][i]), float(got['sc'][i]), 10. ** float(got['sc'][i]), have, want)),
+                        violates=True, branches=br, key=key)
             if len({ef.js(c) for c in ochi}) < nm:
                 br.add('e2e3d_tie')
             for i, m in enumerate(got['model_id']):
